@@ -211,3 +211,105 @@ Proof.
   rewrite Z.mul_0_l in Hq. symmetry in Hq. apply Z.mul_eq_0 in Hq. destruct Hq as [Hq|Hq]; [|discriminate].
   apply Z.mul_eq_0 in Hq. destruct Hq; discriminate.
 Qed.
+
+(* ------------------------------------------------------------------ *)
+(* Decimal128: when the exact result has at most 34 digits and an exponent in
+   range, the stored result is exactly that (coefficient, exponent) *)
+
+Lemma div_unique_pos a b q r : 0 <= r < b -> a = b * q + r -> a / b = q.
+Proof. intros H E. symmetry. eapply Z.div_unique_pos; eauto. Qed.
+
+Lemma mod_unique_pos a b q r : 0 <= r < b -> a = b * q + r -> a mod b = r.
+Proof. intros H E. symmetry. eapply Z.mod_unique_pos; eauto. Qed.
+
+Lemma d128_encode_decode m E (neg : bool) :
+  0 <= m <= d128_maxS -> 0 <= E <= 12287 ->
+  dec_decode (m / two64 + E * 2 ^ 49 + (if neg then two63 else 0)) (m mod two64) =
+  DFin (if neg then - m else m) (E - 6176).
+Proof.
+  intros Hm HE. unfold d128_maxS, two64, two63 in *.
+  set (H0 := m / 18446744073709551616). set (L := m mod 18446744073709551616).
+  assert (Em : m = 18446744073709551616 * H0 + L) by (apply Z.div_mod; lia).
+  assert (HL : 0 <= L < 18446744073709551616) by (apply Z.mod_pos_bound; lia).
+  assert (HH : 0 <= H0 < 562949953421312).
+  { split; [apply Z.div_pos; lia|]. apply Z.div_lt_upper_bound; lia. }
+  set (S := if neg then 9223372036854775808 else 0).
+  assert (HS : S = 0 \/ S = 9223372036854775808) by (destruct neg; auto).
+  change (2 ^ 49) with 562949953421312.
+  set (h := H0 + E * 562949953421312 + S).
+  pose proof (Z.div_mod E 512 ltac:(lia)) as E9. pose proof (Z.mod_pos_bound E 512 ltac:(lia)) as R9.
+  pose proof (Z.div_mod E 4096 ltac:(lia)) as E12. pose proof (Z.mod_pos_bound E 4096 ltac:(lia)) as R12.
+  assert (Q9 : 0 <= E / 512 < 24) by (split; [apply Z.div_pos; lia | apply Z.div_lt_upper_bound; lia]).
+  assert (Q12 : 0 <= E / 4096 < 3) by (split; [apply Z.div_pos; lia | apply Z.div_lt_upper_bound; lia]).
+  unfold dec_decode. change (2 ^ 49) with 562949953421312.
+  change (2 ^ 63) with 9223372036854775808. change (2 ^ 58) with 288230376151711744.
+  change (2 ^ 61) with 2305843009213693952. change (2 ^ 47) with 140737488355328.
+  change (2 ^ 14) with 16384. change (2 ^ 64) with 18446744073709551616.
+  assert (D63 : h / 9223372036854775808 = if neg then 1 else 0).
+  { destruct neg; unfold h, S; [apply div_unique_pos with (r := H0 + E * 562949953421312) | apply div_unique_pos with (r := H0 + E * 562949953421312)]; lia. }
+  assert (D58 : (h / 288230376151711744) mod 32 = E / 512).
+  { assert (h / 288230376151711744 = E / 512 + 32 * (if neg then 1 else 0)) as ->.
+    { apply div_unique_pos with (r := H0 + (E mod 512) * 562949953421312); destruct neg; unfold h, S; lia. }
+    apply mod_unique_pos with (q := if neg then 1 else 0); destruct neg; lia. }
+  assert (D61 : (h / 2305843009213693952) mod 4 = E / 4096).
+  { assert (h / 2305843009213693952 = E / 4096 + 4 * (if neg then 1 else 0)) as ->.
+    { apply div_unique_pos with (r := H0 + (E mod 4096) * 562949953421312); destruct neg; unfold h, S; lia. }
+    apply mod_unique_pos with (q := if neg then 1 else 0); destruct neg; lia. }
+  assert (D49 : (h / 562949953421312) mod 16384 = E).
+  { assert (h / 562949953421312 = E + 16384 * (if neg then 1 else 0)) as ->.
+    { apply div_unique_pos with (r := H0); destruct neg; unfold h, S; lia. }
+    apply mod_unique_pos with (q := if neg then 1 else 0); destruct neg; lia. }
+  assert (M49 : h mod 562949953421312 = H0).
+  { apply mod_unique_pos with (q := E + 16384 * (if neg then 1 else 0)); destruct neg; unfold h, S; lia. }
+  rewrite D63, D58, D61, D49, M49.
+  assert (N : (1 <=? (if neg then 1 else 0)) = neg) by (destruct neg; reflexivity). rewrite N.
+  destruct (Z.eqb_spec (E / 512) 31); [lia|]. destruct (Z.eqb_spec (E / 512) 30); [lia|].
+  destruct (Z.eqb_spec (E / 4096) 3); [lia|].
+  replace (H0 * 18446744073709551616 + L) with m by lia. reflexivity.
+Qed.
+
+Theorem dec_to_d128_exact c e :
+  Z.abs c <= d128_maxS -> d128_min_exp <= e <= d128_max_exp ->
+  exists h l, dec_to_d128 (c, e) = Ok (VDecimal h l) /\ dec_decode h l = DFin c e.
+Proof.
+  intros Hc He. unfold dec_to_d128, d128_of_bigint. cbn [fst snd].
+  assert (E0 : (if c =? 0 then Z.max d128_min_exp (Z.min d128_max_exp e) else e) = e).
+  { destruct (c =? 0); [|reflexivity]. unfold d128_min_exp, d128_max_exp in *. lia. }
+  rewrite E0.
+  assert (S1 : forall f, d128_shrink f c e = Ok (c, e)).
+  { intro f. destruct f; cbn [d128_shrink]; destruct (Z.leb_spec (Z.abs c) d128_maxS); try reflexivity; lia. }
+  assert (S2 : forall f, d128_raise f c e = Ok (c, e)).
+  { intro f. destruct f; cbn [d128_raise]; destruct (Z.leb_spec d128_min_exp e); try reflexivity; lia. }
+  assert (S3 : d128_clamp 40 c e = Ok (c, e)).
+  { cbn [d128_clamp]. destruct (Z.leb_spec e d128_max_exp); [reflexivity | lia]. }
+  rewrite S1. cbn [bind]. rewrite S2. cbn [bind]. rewrite S3. cbn [bind].
+  do 2 eexists. split; [reflexivity|].
+  replace (e - d128_min_exp) with (e + 6176) by (unfold d128_min_exp; lia).
+  pose proof (d128_encode_decode (Z.abs c) (e + 6176) (c <? 0)) as R.
+  replace (e + 6176 - 6176) with e in R by lia.
+  rewrite R; [|lia | unfold d128_min_exp, d128_max_exp in *; lia].
+  f_equal. destruct (Z.ltb_spec c 0); lia.
+Qed.
+
+(* the product of two finite decimals that fits 34 digits is stored exactly *)
+Theorem mul_decimal_exact_partial h1 l1 h2 l2 c1 e1 c2 e2 :
+  dec_decode h1 l1 = DFin c1 e1 -> dec_decode h2 l2 = DFin c2 e2 ->
+  Z.abs (c1 * c2) <= d128_maxS -> d128_min_exp <= e1 + e2 <= d128_max_exp ->
+  exists h l, Mul (VDecimal h1 l1) (VDecimal h2 l2) = Ok (VDecimal h l) /\
+              dec_decode h l = DFin (c1 * c2) (e1 + e2).
+Proof.
+  intros D1 D2 Hc He. cbn [Mul]. unfold dec_binop, dec_operand, dec_of_d128. rewrite D1, D2.
+  cbn [dec_mul]. apply dec_to_d128_exact; assumption.
+Qed.
+
+(* the sum of two finite decimals that fits 34 digits is stored exactly *)
+Theorem add_decimal_exact_partial h1 l1 h2 l2 c1 e1 c2 e2 :
+  dec_decode h1 l1 = DFin c1 e1 -> dec_decode h2 l2 = DFin c2 e2 ->
+  let e := Z.min e1 e2 in
+  let c := c1 * zpow 10 (e1 - e) + c2 * zpow 10 (e2 - e) in
+  Z.abs c <= d128_maxS -> d128_min_exp <= e <= d128_max_exp ->
+  exists h l, Add (VDecimal h1 l1) (VDecimal h2 l2) = Ok (VDecimal h l) /\ dec_decode h l = DFin c e.
+Proof.
+  intros D1 D2 e c Hc He. cbn [Add]. unfold dec_binop, dec_operand, dec_of_d128. rewrite D1, D2.
+  cbn [dec_add]. apply dec_to_d128_exact; assumption.
+Qed.
